@@ -31,6 +31,9 @@ type StepResult struct {
 	Outcome string // HALT, FAULT, HALT:false, ...
 	Changed bool   // did contract storage change
 	V       *Violation
+	// Soft lists failed clauses that do not invalidate the successor state (a read path that
+	// answers wrongly): they are reported like V, but the branch is explored further.
+	Soft []*Violation
 }
 
 // Driver describes one property check over an operation alphabet.
@@ -87,6 +90,7 @@ type succ struct {
 	outcome string
 	opname  string
 	viol    *Violation
+	soft    []*Violation
 }
 
 type worker struct {
@@ -219,6 +223,20 @@ func Explore(mk func() Driver, o Options, kf *Findings) *Stats {
 				if len(s.outcome) >= 4 && s.outcome[:4] == "HALT" && s.outcome != "HALT:false" {
 					st.PerOpOK[s.opname]++
 				}
+				for _, sv := range s.soft {
+					if f := kf.Match(o.Property, sv); f != nil {
+						st.Known[f.ID]++
+						if st.KnownExample[f.ID] == nil {
+							st.KnownExample[f.ID] = sv
+							st.confPaths = append(st.confPaths, toU16(sv.Ops))
+						}
+						continue
+					}
+					unknown = true
+					if len(st.Violations) < 20 {
+						st.Violations = append(st.Violations, sv)
+					}
+				}
 				if s.viol != nil {
 					if f := kf.Match(o.Property, s.viol); f != nil {
 						st.Known[f.ID]++
@@ -348,6 +366,14 @@ func expand(d Driver, w *World, pn pnode) []succ {
 		opn := d.OpName(n, op)
 		r := d.Step(x, &Node{L: n.L, H: n.H, TS: n.TS, M: n.M.Clone()}, op)
 		s := succ{changed: r.Changed, outcome: r.Outcome, opname: opn}
+		for _, sv := range r.Soft {
+			sv.Path = append(append([]string{}, names...), opn)
+			for _, p := range pn.path {
+				sv.Ops = append(sv.Ops, int(p))
+			}
+			sv.Ops = append(sv.Ops, op)
+			s.soft = append(s.soft, sv)
+		}
 		if r.V != nil {
 			r.V.Path = append(append([]string{}, names...), opn)
 			for _, p := range pn.path {
@@ -383,6 +409,11 @@ func ReplayOps(mk func() Driver, ops []int) (*Violation, []string) {
 			r.V.Path = names
 			r.V.Ops = ops[:i+1]
 			return r.V, names
+		}
+		if i == len(ops)-1 && len(r.Soft) > 0 {
+			r.Soft[0].Path = names
+			r.Soft[0].Ops = ops
+			return r.Soft[0], names
 		}
 		n = r.Next
 	}
